@@ -415,6 +415,7 @@ def r4(ctx, facts):
         for bb, c in cbody.calls():
             if bb in cbody.live_blocks and (c.decl or c.name or "").endswith("Ord::cmp"):
                 cmpc = (cbody, c)
+    SEARCH = ("binary_search_by", "binary_search_by_key", "partition_point")
     if (bs[0].decl or bs[0].name or "").endswith("binary_search_by"):
         ok = False
         if cmpc:
@@ -424,16 +425,6 @@ def r4(ctx, facts):
             # first operand derives from the closure's element parameter (local 2), second from the captured token (local 1)
             ok = any(l == 2 for l, _ in s0) and any(l == 1 for l, _ in s1) and not any(l == 2 for l, _ in s1)
         r.instance("search-orders-member-against-token", ok, "the binary search comparator must be member_token.cmp(&requested_token); reversed it lands on the wrong side of the ring", bs[0].span)
-        # Ok(i) and Err(i) both start the walk at i
-        df = df_of(b, facts)
-        dj = dj_of(b, facts)
-        idx = [c for c in b.calls_to("Index::index")]
-        okb = False
-        for c in idx:
-            seen, cs, bins = field_slice(b, c.args[1], stop_at=("binary_search_by", "binary_search_by_key", "partition_point"))
-            if any(x.bb == bs[0].bb for x in cs):
-                okb = not bins and all(x.bb == bs[0].bb for x in cs)
-        r.instance("walk-starts-at-search-result", okb, "the walk must start at the index the search returned (exact match or first greater), unchanged", idx[0].span if idx else b.span)
     else:
         # partition_point(|e| e.token < token): strictly-less, member on the left (or token > member)
         ok = False
@@ -447,22 +438,62 @@ def r4(ctx, facts):
                     mem1 = any(l == 2 for l, _ in s1) and not any(l == 1 for l, _ in s1)
                     ok = (nm == "lt" and mem0 and not mem1) or (nm == "gt" and mem1 and not mem0)
         r.instance("search-orders-member-against-token", ok, "partition_point's predicate must be `member_token < requested_token` (strict): with <= a member sitting exactly on the token is skipped", bs[0].span)
-        idx = [c for c in b.calls_to("Index::index")]
-        okb = False
-        for c in idx:
-            seen, cs, bins = field_slice(b, c.args[1], stop_at=("binary_search_by", "binary_search_by_key", "partition_point"))
-            if any(x.bb == bs[0].bb for x in cs):
-                okb = not bins and all(x.bb == bs[0].bb for x in cs)
-        r.instance("walk-starts-at-search-result", okb, "the walk must start at the index the search returned, unchanged", idx[0].span if idx else b.span)
+
+    def part_of_ring(op, depth=0):
+        """("suffix"|"prefix", index operand) / ("whole", None) / None: which part of `self.ring` an iterator / slice operand covers"""
+        if depth > 10 or op[0] not in ("c", "m"):
+            return None
+        pl = op[1]
+        fl = [e for e in pl[1] if isinstance(e, list) and e[0] == "f"]
+        if fl and fl[-1][2] == "ring":
+            return ("whole", None)
+        ds = [d for d in b.defs.get(pl[0], []) if d[0] in ("stmt", "call")]
+        if len(ds) != 1:
+            return None
+        d = ds[0]
+        if d[0] == "stmt":
+            rv = d[3]
+            if rv[0] in ("use",):
+                return part_of_ring(rv[1], depth + 1)
+            if rv[0] in ("ref", "cfd", "addr"):
+                return part_of_ring(["c", rv[-1]], depth + 1)
+            return None
+        c = d[2]
+        nm = (c.decl or c.name or "").split("::")[-1]
+        if nm == "split_at" and fl:
+            return ("prefix" if fl[0][1] == 0 else "suffix", c.args[1])
+        if nm in ("iter", "into_iter", "deref", "as_slice", "as_ref", "borrow"):
+            return part_of_ring(c.args[0], depth + 1)
+        if nm == "index" and len(c.args) == 2 and c.args[1][0] in ("c", "m"):
+            rd = b.single_def(c.args[1][1][0])
+            if rd and rd[0] == "stmt" and rd[3][0] == "agg" and rd[3][1][0] == "adt":
+                kind = rd[3][1][1].split("::")[-1]
+                if kind == "RangeFrom":
+                    return ("suffix", rd[3][2][0])
+                if kind == "RangeTo":
+                    return ("prefix", rd[3][2][0])
+                if kind == "RangeFull":
+                    return ("whole", None)
+        return None
+
+    def from_search_unchanged(op):
+        seen, cs, bins = field_slice(b, op, stop_at=SEARCH)
+        return any(x.bb == bs[0].bb for x in cs) and not bins and all(x.bb == bs[0].bb or (x.decl or x.name or "").split("::")[-1] in ("unwrap_or_else", "unwrap_or", "into_ok_or_err", "map_or_else", "identity") for x in cs)
     ch = b.calls_to("Iterator::chain")
     tk = b.calls_to("Iterator::take")
-    okw = False
-    if len(ch) == 1 and len(tk) == 1:
-        _, cs, bins = field_slice(b, tk[0].args[1])
-        okw = any((x.decl or x.name or "").split("::")[-1] == "len" for x in cs) and not bins
-        _, cs0, _ = field_slice(b, tk[0].args[0])
-        okw = okw and any(x.bb == ch[0].bb for x in cs0)
-    r.instance("wraps-once-around", okw, "tail of the ring chained with the ring from its start, cut to ring.len() members: each member exactly once", tk[0].span if tk else b.span)
+    okb = okw = False
+    if len(ch) == 1:
+        pa, pb_ = part_of_ring(ch[0].args[0]), part_of_ring(ch[0].args[1])
+        okb = bool(pa) and pa[0] == "suffix" and from_search_unchanged(pa[1])
+        if pa and pb_ and pb_[0] == "prefix":
+            okw = from_search_unchanged(pb_[1]) and not tk
+        elif pa and pb_ and pb_[0] == "whole" and len(tk) == 1:
+            _, cs, bins = field_slice(b, tk[0].args[1])
+            okw = any((x.decl or x.name or "").split("::")[-1] == "len" for x in cs) and not bins
+            _, cs0, _ = field_slice(b, tk[0].args[0])
+            okw = okw and any(x.bb == ch[0].bb for x in cs0)
+    r.instance("walk-starts-at-search-result", okb, "the walk must start with the members from the index the search returned (exact match or first greater), unchanged", ch[0].span if ch else b.span)
+    r.instance("wraps-once-around", okw, "the tail of the ring must be followed by exactly the members in front of the start index (the prefix, or the whole ring cut to ring.len()): each member exactly once", ch[0].span if ch else b.span)
     nb = facts.one(r"^%snew$" % T)
     srt = nb.calls_to("sort_by_key", "sort_unstable_by_key", "sort_by", "sort", "sort_unstable_by", "sort_unstable", "sort_by_cached_key")
     r.instance("ring-is-sorted-by-token", len(srt) >= 1, "TokenRing::new must sort the members (by token)", nb.span)
